@@ -443,7 +443,9 @@ class BuiltinModelLoaderGen(ModelLoaderGen):
             else:
                 state.builder += "pass"
 
-        if state.parent_path not in state.type_checked_type_paths:
+        # A mapping with integer keys passes the type check of the first item access,
+        # so every access to a list item must treat KeyError as a bad type
+        if state.parent_path not in state.type_checked_type_paths or not isinstance(last_path_el, str):
             with state.builder(f"except {bad_type_error}:"):
                 self._gen_raise_bad_type_error(state, bad_type_load_error, namer=state.parent)
             state.type_checked_type_paths.add(state.parent_path)
